@@ -366,6 +366,28 @@ def guard_like(e: ast.AST) -> bool:
     return False
 
 
+_MUTATORS = frozenset({'append', 'extend', 'add', 'update', 'insert', 'pop', 'remove', 'discard', 'clear', 'setdefault', 'popitem',
+                        'sort', 'reverse', 'appendleft', 'popleft', 'difference_update', 'intersection_update'})
+
+
+def _mutated_in_place(cfg: CFG, name: str) -> bool:
+    fn = cfg.fn_node
+    cache = getattr(cfg, '_mut_cache', None)
+    if cache is None:
+        cache = {}
+        cfg._mut_cache = cache
+    if name not in cache:
+        hit = False
+        for x in ast.walk(fn):
+            if isinstance(x, ast.Call) and isinstance(x.func, ast.Attribute) and x.func.attr in _MUTATORS \
+                    and isinstance(x.func.value, ast.Name) and x.func.value.id == name:
+                hit = True
+            elif isinstance(x, ast.Subscript) and isinstance(x.ctx, (ast.Store, ast.Del)) and isinstance(x.value, ast.Name) and x.value.id == name:
+                hit = True
+        cache[name] = hit
+    return cache[name]
+
+
 def expand_locals(cfg: CFG, rd: ReachingDefs, expr: ast.AST, at: int, depth: int = 4,
                   stop: Iterable[str] = (), only=None) -> ast.AST:
     """Substitute local names in expr by their defining expressions when they have exactly one
@@ -389,6 +411,10 @@ def expand_locals(cfg: CFG, rd: ReachingDefs, expr: ast.AST, at: int, depth: int
             if dv is None or dv[0] != 'value':
                 return node
             if only is not None and not only(dv[1]):
+                return node
+            if isinstance(dv[1], (ast.List, ast.Dict, ast.Set, ast.ListComp, ast.SetComp, ast.DictComp)) and _mutated_in_place(cfg, node.id):
+                # a container that is filled in place afterwards (`acc = []` ... `acc.extend(xs)`): the name no longer
+                # stands for its initial display
                 return node
             # the defining expression is evaluated at dn: expand it there
             inner = X(dn, self.d - 1).visit(copy.deepcopy(dv[1]))
